@@ -8,7 +8,8 @@ contents) and both kinds of view buffer (`direct`: field of a struct; otherwise 
 -/
 import Emboss.Properties.C02
 import Emboss.Lemmas.ScalarWriteView
-import Emboss.Lemmas.WriteInference
+import Emboss.Lemmas.ScalarStore
+import Emboss.Lemmas.WriteInferenceCpp
 namespace Emboss.Scalar
 open Emboss.Bits Emboss.Scalar.Spec
 
@@ -96,21 +97,75 @@ Full statement (false on the real code, see the counterexample below):
   ∀ uw ≥ w, couldWrite x = true ↔ Representable (.enum uw true) w x
 -/
 /-- **EnumView::CouldWriteValue**, signed enums, partial: when the field has the width of the
-underlying type *and* of the buffer's value type (`w = uw = W`: an `int8_t` enum in one byte
-of a struct, …) every value of the enum type is accepted, and is representable.  Missing:
-narrower fields and fields inside wider `bits` (open findings). -/
+underlying type (`w = uw`; the buffer's value type may be wider — an `int8_t` enum at bit 4 of
+a 16-bit `bits` — since `fix: … negative value of a signed enum … inside a wider bits`, which
+converts through the unsigned underlying type) exactly the representable values, i.e. every
+value of the enum type, are accepted.  Missing: fields narrower than the underlying type
+(open finding `signed-enum-in-field-narrower-than-underlying-type`, see
+`C03_could_write_enum_signed_actual`). -/
 theorem C03_could_write_enum_signed_partial (h : Placed bb o w) (direct : Bool)
-    (hW : w = bb.W) (t : IntT) (x : Int) (ha : ArgOk (.enum w true) w t x) :
-    (fieldView (.enum w true) direct bb o w).couldWrite t x = true ∧
-      Representable (.enum w true) w x := by
-  refine ⟨?_, (representable_signed (ty := .enum w true) rfl h.w_pos x).mpr ha⟩
-  simp only [View.couldWrite, fieldView, fieldBuf_W, ← hW, Bool.and_eq_true, Bool.or_eq_true,
-    decide_eq_true_eq, if_true]
-  exact ⟨(toSigned_ofInt (by have := h.w_pos; omega) ha.1 ha.2).symm, Or.inl trivial⟩
+    (t : IntT) (x : Int) (ha : ArgOk (.enum w true) w t x) :
+    ((fieldView (.enum w true) direct bb o w).couldWrite t x = true ↔
+      Representable (.enum w true) w x) ∧
+    (fieldView (.enum w true) direct bb o w).couldWrite t x = true := by
+  have hr := (representable_signed (ty := .enum w true) rfl h.w_pos x).mpr ha
+  have hc := (enum_signed_could w w h.w_pos (Nat.le_refl w) (fieldBuf direct bb o w)
+    (by rw [fieldBuf_W]; exact placed_w_le_W h) t x ha.1 ha.2).mpr (Or.inl rfl)
+  exact ⟨⟨fun _ => hr, fun _ => hc⟩, hc⟩
 
--- non-vacuity: an `int8_t` enum occupying one byte of a struct (`w = uw = W = 8`)
+-- non-vacuity: an `int8_t` enum occupying one byte of a struct (`w = uw = W = 8`), and the
+-- pinned input of the fixed finding: the same enum at bit 4 of a 16-bit `bits` (`W = 16`)
 example : exBB8.W = 8 ∧ (fieldView (.enum 8 true) true exBB8 0 8).couldWrite ⟨true, 8⟩ (-128) = true := by
   decide
+def exBB16 : BitBlock := { order := .little, path := .opt, c := 16, bytes := [0, 0] }
+example : exBB16.W = 16 ∧
+    (fieldView (.enum 8 true) false exBB16 4 8).couldWrite ⟨true, 8⟩ (-1) = true ∧
+    (∃ v', (fieldView (.enum 8 true) false exBB16 4 8).tryToWrite ⟨true, 8⟩ (-1) = .written v' ∧
+      v'.buf.bytes = [0xf0, 0x0f] ∧ v'.read = some (-1)) := ⟨by decide, by decide, _, rfl, by decide, by decide⟩
+
+/-- **EnumView::CouldWriteValue of a signed enum, the behaviour of the code for every
+`(w, uw, W)`** (`w ≤ uw`, any buffer value type): a field as wide as the underlying type
+accepts every value; a narrower field accepts exactly `0 ≤ x < 2^w`.  Compared with the
+documented two's-complement range `-2^(w-1) ≤ x < 2^(w-1)` the narrow field wrongly refuses
+the negative half and wrongly accepts `2^(w-1) ≤ x < 2^w` — the open finding. -/
+theorem C03_could_write_enum_signed_actual (h : Placed bb o w) (direct : Bool) (uw : Nat)
+    (huw : w ≤ uw) (t : IntT) (x : Int) (ha : ArgOk (.enum uw true) w t x) :
+    ((fieldView (.enum uw true) direct bb o w).couldWrite t x = true ↔
+      (w = uw ∨ (0 ≤ x ∧ x < ((2 ^ w : Nat) : Int)))) ∧
+    (w < uw → (((fieldView (.enum uw true) direct bb o w).couldWrite t x = true ↔
+        Representable (.enum uw true) w x) ↔
+      ((0 ≤ x ∧ x < ((2 ^ (w - 1) : Nat) : Int)) ∨ x < -((2 ^ (w - 1) : Nat) : Int) ∨
+        ((2 ^ w : Nat) : Int) ≤ x))) := by
+  have hc := enum_signed_could w uw h.w_pos huw (fieldBuf direct bb o w)
+    (by rw [fieldBuf_W]; exact placed_w_le_W h) t x ha.1 ha.2
+  refine ⟨hc, ?_⟩
+  intro hlt
+  have hc' : (fieldView (.enum uw true) direct bb o w).couldWrite t x = true ↔
+      (w = uw ∨ (0 ≤ x ∧ x < ((2 ^ w : Nat) : Int))) := hc
+  rw [hc', representable_signed (ty := .enum uw true) rfl h.w_pos]
+  have hd := pow_pred_double (W := w) h.w_pos
+  constructor
+  · intro hiff
+    by_cases h0 : 0 ≤ x
+    · by_cases h1 : x < ((2 ^ (w - 1) : Nat) : Int)
+      · exact Or.inl ⟨h0, h1⟩
+      · right; right
+        by_cases h2 : x < ((2 ^ w : Nat) : Int)
+        · have := hiff.mp (Or.inr ⟨h0, h2⟩); omega
+        · omega
+    · right; left
+      by_cases h1 : -((2 ^ (w - 1) : Nat) : Int) ≤ x
+      · have := hiff.mpr ⟨h1, by omega⟩
+        rcases this with he | ⟨h0', _⟩ <;> omega
+      · omega
+  · rintro (⟨h0, h1⟩ | h1 | h1)
+    · exact ⟨fun _ => ⟨by omega, h1⟩, fun _ => Or.inr ⟨h0, by omega⟩⟩
+    · constructor
+      · rintro (he | ⟨h0, _⟩) <;> omega
+      · rintro ⟨h2, _⟩; omega
+    · constructor
+      · rintro (he | ⟨_, h2⟩) <;> omega
+      · rintro ⟨_, h2⟩; omega
 
 /-- **Counterexample**: a 4-bit field of an `int8_t` enum refuses `-1` (representable in
 4-bit two's complement) and accepts `15` (not representable). -/
@@ -125,17 +180,18 @@ theorem C03_enum_signed_narrow_counterexample :
 
 /-- **Write then read**: whenever `CouldWriteValue(x)` holds (the view being complete),
 `TryToWrite(x)` succeeds, the buffer stays a well-formed container, and `Read()` then
-returns exactly `x` (and `Ok()` holds).  For signed enums under the side condition of
-`C03_could_write_enum_signed_partial`. -/
+returns exactly `x` (and `Ok()` holds).  For every view type meeting `TypeFits` (signed
+enums: `w = uw`; the narrow signed enum fields are covered, with the behaviour the code has,
+by `C03_enum_signed_write_then_read_actual`). -/
 theorem C03_write_then_read (h : Placed bb o w) (direct : Bool)
     (hd : direct = true → o = 0 ∧ w = bb.c) (ty : Ty) (hty : TypeFits ty w)
-    (hs : ∀ uw, ty = .enum uw true → w = bb.W) (t : IntT) (x : Int) (ha : ArgOk ty w t x)
+    (t : IntT) (x : Int) (ha : ArgOk ty w t x)
     (hc : (fieldView ty direct bb o w).couldWrite t x = true) :
     ∃ bytes', (fieldView ty direct bb o w).tryToWrite t x =
         .written (fieldView ty direct { bb with bytes := bytes' } o w) ∧
       Placed { bb with bytes := bytes' } o w ∧
       (fieldView ty direct { bb with bytes := bytes' } o w).read = some x := by
-  obtain ⟨henc, hdec⟩ := encode_spec h direct ty hty hs t x ha hc
+  obtain ⟨henc, hdec⟩ := encode_spec h direct ty hty t x ha hc
   obtain ⟨bytes', hw, hp, hu⟩ := tryToWrite_written h direct hd ty t x hc henc
   refine ⟨bytes', hw, hp, ?_⟩
   rw [C02_read_eq_spec hp direct hd ty hty]
@@ -146,6 +202,49 @@ theorem C03_write_then_read (h : Placed bb o w) (direct : Bool)
 example : ∃ v', (fieldView .int false exBB 9 5).tryToWrite ⟨true, 8⟩ (-3) = .written v' ∧
     v'.read = some (-3) ∧ v'.buf.bytes = [0x12, 0x3a, 0x56] := ⟨_, rfl, by decide, by decide⟩
 
+/-- **Signed enum, write then read, for every `(w, uw, W)`**: whatever value the code accepts
+(`C03_could_write_enum_signed_actual`) is stored in the field's own bits only and read back
+exactly — also in the narrow fields of the open finding, where the accepted values are
+`0 … 2^w − 1` and `Read()` zero-extends.  So the finding is confined to *which* values are
+accepted / how a given bit pattern is interpreted; write/read round trips and the frame
+condition hold unconditionally. -/
+theorem C03_enum_signed_write_then_read_actual (h : Placed bb o w) (direct : Bool)
+    (hd : direct = true → o = 0 ∧ w = bb.c) (uw : Nat) (huw : w ≤ uw) (t : IntT) (x : Int)
+    (ha : ArgOk (.enum uw true) w t x)
+    (hc : (fieldView (.enum uw true) direct bb o w).couldWrite t x = true) :
+    ∃ bytes', (fieldView (.enum uw true) direct bb o w).tryToWrite t x =
+        .written (fieldView (.enum uw true) direct { bb with bytes := bytes' } o w) ∧
+      Placed { bb with bytes := bytes' } o w ∧
+      (fieldView (.enum uw true) direct { bb with bytes := bytes' } o w).read = some x ∧
+      ∀ o' w', o' + w' ≤ o ∨ o + w ≤ o' →
+        fieldBits { bb with bytes := bytes' } o' w' = fieldBits bb o' w' := by
+  have hkB := placed_w_le_W h
+  have hcase := (enum_signed_could w uw h.w_pos huw (fieldBuf direct bb o w)
+    (by rw [fieldBuf_W]; exact hkB) t x ha.1 ha.2).mp hc
+  have henc_eq : (fieldView (.enum uw true) direct bb o w).encode x = wrap bb.W (ofInt uw x) := by
+    simp only [View.encode, fieldView, fieldBuf_W]
+  -- the unsigned image fits the field
+  have hfit : ofInt uw x < 2 ^ w := by
+    rcases hcase with he | ⟨h0, hlt⟩
+    · subst he; exact ofInt_lt w x
+    · rw [ofInt_of_nonneg h0 (by have := pow_le_pow huw; omega)]; omega
+  have hwr : wrap bb.W (ofInt uw x) = ofInt uw x := enum_encode_eq hkB x hfit
+  have henc : (fieldView (.enum uw true) direct bb o w).encode x < 2 ^ w := by
+    rw [henc_eq, hwr]; exact hfit
+  obtain ⟨bytes', hw, hp, hu⟩ := tryToWrite_written h direct hd (.enum uw true) t x hc henc
+  have hfb0 : fieldBits { bb with bytes := bytes' } o w =
+      (fieldView (.enum uw true) direct bb o w).encode x := bits_of_updated hu henc
+  have hfb : fieldBits { bb with bytes := bytes' } o w = ofInt uw x := by
+    rw [hfb0, henc_eq, hwr]
+  refine ⟨bytes', hw, hp, ?_, fun o' w' hdis => bits_disjoint_of_updated hu hdis⟩
+  rw [(C02_enum_read_signed_actual hp uw huw direct hd).2.1, hfb,
+    toSigned_ofInt (by have := h.w_pos; omega) ha.1 ha.2]
+
+-- non-vacuity (test): the 4-bit field of an `int8_t` enum accepts 15, stores 0xF in the low
+-- nibble only, and reads 15 back
+example : ∃ v', (fieldView (.enum 8 true) false exBB8 0 4).tryToWrite ⟨true, 8⟩ 15 = .written v' ∧
+    v'.buf.bytes = [0x8f] ∧ v'.read = some 15 := ⟨_, rfl, by decide, by decide⟩
+
 /-- **Frame**: a successful write changes the container value only in bits `[o, o+w)`
 (`Updated`: every other bit is the old one), writes back exactly the container's `c/8`
 bytes, and therefore every disjoint field of the same container reads the same bits as
@@ -153,7 +252,7 @@ before.  Bytes outside the container are not part of the store at all (`storeLE/
 `c/8` bytes; the sanitizer-instrumented tie checks the real code never touches others). -/
 theorem C03_write_frame (h : Placed bb o w) (direct : Bool)
     (hd : direct = true → o = 0 ∧ w = bb.c) (ty : Ty) (hty : TypeFits ty w)
-    (hs : ∀ uw, ty = .enum uw true → w = bb.W) (t : IntT) (x : Int) (ha : ArgOk ty w t x)
+    (t : IntT) (x : Int) (ha : ArgOk ty w t x)
     (hc : (fieldView ty direct bb o w).couldWrite t x = true) :
     ∃ bytes', (fieldView ty direct bb o w).tryToWrite t x =
         .written (fieldView ty direct { bb with bytes := bytes' } o w) ∧
@@ -162,7 +261,7 @@ theorem C03_write_frame (h : Placed bb o w) (direct : Bool)
         (containerValue bb.order bytes') ∧
       ∀ o' w', o' + w' ≤ o ∨ o + w ≤ o' →
         fieldBits { bb with bytes := bytes' } o' w' = fieldBits bb o' w' := by
-  obtain ⟨henc, _⟩ := encode_spec h direct ty hty hs t x ha hc
+  obtain ⟨henc, _⟩ := encode_spec h direct ty hty t x ha hc
   obtain ⟨bytes', hw, hp, hu⟩ := tryToWrite_written h direct hd ty t x hc henc
   have hfb : fieldBits { bb with bytes := bytes' } o w = (fieldView ty direct bb o w).encode x :=
     bits_of_updated hu henc
@@ -176,6 +275,68 @@ example : ∃ v', (fieldView .int false exBB 9 5).tryToWrite ⟨true, 8⟩ (-3) 
     fieldBits v'.buf.bitBlock 0 9 = fieldBits exBB 0 9 ∧
     fieldBits v'.buf.bitBlock 14 10 = fieldBits exBB 14 10 ∧
     fieldBits v'.buf.bitBlock 9 5 = 29 := ⟨_, rfl, by decide, by decide, by decide⟩
+
+/-- **Frame at the level of the structure's buffer.**  The field's `c`-bit container occupies
+bytes `[p, p + c/8)` of the structure's backing store (the sub-buffer handed to the view
+aliases them).  A write the view accepts yields a store of the same length in which **every
+byte outside `[p, p + c/8)` is the old byte**, the container's bytes are the ones of
+`C03_write_frame` (so inside the container only bits `[o, o+w)` changed) and the field then
+reads `x`; if the buffer is too short for the container, or the value is refused, nothing is
+written at all. -/
+theorem C03_write_frame_store (store : List Nat) (p : Nat) (order : ByteOrder) (path : Path)
+    (c : Nat) (hfit : p + c / 8 ≤ store.length)
+    (h : Placed { order := order, path := path, c := c, bytes := (store.drop p).take (c / 8) } o w)
+    (direct : Bool) (hd : direct = true → o = 0 ∧ w = c) (ty : Ty) (hty : TypeFits ty w)
+    (t : IntT) (x : Int) (ha : ArgOk ty w t x)
+    (hc : (fieldView ty direct
+      { order := order, path := path, c := c, bytes := (store.drop p).take (c / 8) } o w).couldWrite t x = true) :
+    ∃ store' bytes', storeTryToWrite store p order path c ty direct o w t x = .written store' ∧
+      store'.length = store.length ∧
+      (∀ i, i < p ∨ p + c / 8 ≤ i → store'[i]? = store[i]?) ∧
+      containerOf store' p (c / 8) = some bytes' ∧
+      (fieldView ty direct { order := order, path := path, c := c, bytes := bytes' } o w).read = some x ∧
+      Updated o w (containerValue order ((store.drop p).take (c / 8)))
+        (fieldBits { order := order, path := path, c := c, bytes := bytes' } o w)
+        (containerValue order bytes') := by
+  obtain ⟨bytes', hw, hlen, hu, _⟩ := C03_write_frame h direct hd ty hty t x ha hc
+  obtain ⟨bytes'', hw', _, hrd⟩ := C03_write_then_read h direct hd ty hty t x ha hc
+  have hbb : bytes'' = bytes' := by
+    rw [hw] at hw'
+    simp only [View.WriteResult.written.injEq, fieldView, View.mk.injEq, true_and] at hw'
+    cases direct <;> simp [fieldBuf, BitBlock.offsetStorage] at hw' <;> simp_all
+  subst hbb
+  have hl : bytes''.length = c / 8 := by
+    have h1 := h.len; have h2 := h.c_mult
+    simp only at hlen h1 h2
+    omega
+  have hfit' : p + bytes''.length ≤ store.length := by omega
+  refine ⟨storeAfter store p bytes'', bytes'', ?_, storeAfter_length store p bytes'' hfit',
+    fun i hi => storeAfter_outside store p bytes'' hfit' i (by omega), ?_, hrd, hu⟩
+  · unfold storeTryToWrite containerOf
+    rw [if_pos hfit]
+    simp only [hw]
+    congr 2
+    cases direct <;> rfl
+  · rw [← hl]; exact storeAfter_container store p bytes'' hfit'
+
+/-- Too short a buffer, or a refused value: the store is not written. -/
+theorem C03_store_refused (store : List Nat) (p : Nat) (order : ByteOrder) (path : Path) (c : Nat)
+    (ty : Ty) (direct : Bool) (o w : Nat) (t : IntT) (x : Int)
+    (hf : store.length < p + c / 8 ∨ ∀ bytes, (fieldView ty direct
+      { order := order, path := path, c := c, bytes := bytes } o w).couldWrite t x = false) :
+    storeTryToWrite store p order path c ty direct o w t x = .refused := by
+  unfold storeTryToWrite containerOf
+  rcases hf with hf | hf
+  · rw [if_neg (by omega)]
+  · split
+    · rfl
+    · rw [tryToWrite_refused_of_not_could _ t x (hf _)]
+
+-- non-vacuity (test): the container `12 34 56` of `exBB` at byte 2 of a 7-byte store
+example : storeTryToWrite [0xaa, 0xbb, 0x12, 0x34, 0x56, 0xcc, 0xdd] 2 .big .opt 24 .int false 9 5
+      ⟨true, 8⟩ (-3) = .written [0xaa, 0xbb, 0x12, 0x3a, 0x56, 0xcc, 0xdd] ∧
+    storeTryToWrite [0xaa, 0xbb, 0x12, 0x34] 2 .big .opt 24 .int false 9 5 ⟨true, 8⟩ (-3) = .refused := by
+  decide
 
 /-- **Failed write**: if `CouldWriteValue(x)` is false or the view is incomplete,
 `TryToWrite(x)` returns false without calling `WriteUInt` (the buffer is not touched). -/
@@ -227,37 +388,83 @@ example : invert (.bin .mul (.ref 1) (.const 2)) = none ∧
     invert (.bin .add (.ref 1) (.ref 2)) = none ∧ invert (.bin .sub (.ref 1) (.ref 1)) = none := by
   decide
 
-/-
-Full statement (false on the real generated code, see finding
-`virtual-write-inverse-wraps-in-unsigned-destination-type`): the same with `eval` replaced by
-what the generated C++ computes.  The C++ evaluates `function_body` in a fixed-width type
-inferred from the *assumed* bounds of `$logical_value` (the virtual field's own value range);
-for a candidate value outside that range the unsigned arithmetic wraps and a 32-bit `UInt`
-destination accepts the wrapped value: `let v = f0 + 1` over `0 [+4] UInt f0`,
-`v().TryToWrite(0)` succeeds, stores 0xFFFFFFFF and `v` reads 2^32.
--/
-/-- **Transform write**, partial: *when the inverse `function_body` is evaluated exactly (over
-ℤ, as `eval` does — true of the generated C++ whenever the candidate value lies in the virtual
-field's own value range, so that no intermediate wraps)*, a successful `TryToWrite(v)` of the
-generated virtual-field write method leaves in the destination the value for which the
-virtual field reads back `v`; that value was accepted by the destination's own
-`CouldWriteValue` (C03_could_write_iff_representable_*); a failed write leaves the
-destination unchanged.  Missing: the fixed-width evaluation of the inverse in the generated
-code (open finding above; the signed variant is undefined behaviour and belongs to C04/F3). -/
-theorem C03_transform_write_partial (rt body : Expr) (x : Nat) (hinv : invert rt = some (.ref x, body))
-    (valueIsOk : Int → Bool) (d : Dest) (v : Int) (env : Nat → Int) :
-    (∀ d', virtualTryToWrite body valueIsOk d v = (true, d') →
-      eval (update env x d'.value) v rt = some v ∧ d.could d'.value = true ∧
-      valueIsOk v = true ∧ d.complete = true) ∧
-    (∀ d', virtualTryToWrite body valueIsOk d v = (false, d') → d' = d) :=
-  transform_write rt body x hinv valueIsOk d v env
+/-- **Transform write** (promoted from `C03_transform_write_partial`: the hypothesis "the
+inverse is evaluated exactly" is discharged).  The model now evaluates `function_body` the
+way the generated C++ does — per node the bounds of `expression_bounds`, `IntermediateT` /
+`ResultT` chosen by `_cpp_integer_type_for_range`, `MaybeDo`'s conversions, signed overflow =
+undefined — after the range check that `fix: make writes through an arithmetic virtual field
+reject values outside the field's range` put in front of it (rendered literals compared under
+the usual arithmetic conversions).  For **every** value `v` of the C++ parameter type:
 
-/-- An 8-bit unsigned destination holding 5, complete. -/
+* the generated code has defined behaviour (no overflow, no value-changing conversion);
+* `TryToWrite(v)` succeeds **exactly when** `[requires]` holds, `v` lies in the virtual
+  field's own range, the destination is complete and accepts the exact (ℤ) inverse image;
+* then the destination holds the value for which `read_transform` evaluates to `v`
+  (whatever the other fields hold), inside the range the front end inferred for it;
+* otherwise the destination is untouched.
+
+Side conditions: `lv`/`t` are the range and C++ type of the virtual field, the inverse lies in
+the fragment `_invert_expression` emits with constant-typed operands the model can evaluate
+(`rangeOf … = some r`), and every node has a C++ type (otherwise the header does not
+compile).  Before the repair the same model accepts `v = 0` for `let v = f0 + 1` over a
+32-bit `UInt` and stores `0xFFFFFFFF` (see the `example` below) — fixed finding
+`virtual-write-inverse-wraps-in-unsigned-destination-type`. -/
+theorem C03_transform_write (rt body : Expr) (x : Nat) (hinv : invert rt = some (.ref x, body))
+    (lv r : Rng) (t : Emboss.CppInt.IntTy) (ht : logicalType lv = some t) (hle : lv.lo ≤ lv.hi)
+    (hr : rangeOf lv body = some r) (hty : typesExist lv body = true)
+    (valueIsOk : Int → Bool) (d : Dest) (v : Int) (hv : t.holds v = true) (env : Nat → Int) :
+    ∃ ok d', virtualTryToWrite lv t body valueIsOk d v = some (ok, d') ∧
+      (ok = true ↔ valueIsOk v = true ∧ lv.lo ≤ v ∧ v ≤ lv.hi ∧ d.complete = true ∧
+        ∃ u, eval (fun _ => 0) v body = some u ∧ d.could u = true) ∧
+      (ok = true → eval (update env x d'.value) v rt = some v ∧ d.could d'.value = true ∧
+        r.lo ≤ d'.value ∧ d'.value ≤ r.hi) ∧
+      (ok = false → d' = d) :=
+  transform_write rt body x hinv lv r t ht hle hr hty valueIsOk d v hv env
+
+/-- The generated range check alone: exact for every value of the parameter type. -/
+theorem C03_virtual_range_check_exact (lv : Rng) (t : Emboss.CppInt.IntTy)
+    (ht : logicalType lv = some t) (hle : lv.lo ≤ lv.hi) (v : Int) (hv : t.holds v = true) :
+    rangeCheck lv t v = some (decide (lv.lo ≤ v ∧ v ≤ lv.hi)) :=
+  rangeCheck_exact ht hle hv
+
+/-- The generated inverse is exact inside the field's range (no wrap, no overflow). -/
+theorem C03_inverse_cpp_exact (lv : Rng) (v : Int) (hv : lv.lo ≤ v ∧ v ≤ lv.hi) (body : Expr)
+    (r : Rng) (hr : rangeOf lv body = some r) (hty : typesExist lv body = true) :
+    ∃ u, cppEval lv v body = .ok u ∧ eval (fun _ => 0) v body = some u ∧ r.lo ≤ u ∧ u ≤ r.hi :=
+  cppEval_exact lv v hv body r hr hty
+
+/-- An 8-bit unsigned destination holding 5, complete; `let v = f + 100`: range `[100, 355]`. -/
 def exDest : Dest := { could := fun u => decide (0 ≤ u ∧ u < 256), complete := true, value := 5 }
-example : (virtualTryToWrite (.bin .sub .logical (.const 100)) (fun _ => true) exDest 130).1 = true ∧
-    (virtualTryToWrite (.bin .sub .logical (.const 100)) (fun _ => true) exDest 130).2.value = 30 ∧
-    (virtualTryToWrite (.bin .sub .logical (.const 100)) (fun _ => true) exDest 99).1 = false := by
+def exLv : Rng := ⟨100, 355⟩
+def exBody : Expr := .bin .sub .logical (.const 100)
+example : invert (.bin .add (.ref 0) (.const 100)) = some (.ref 0, exBody) ∧
+    logicalType exLv = some Emboss.CppInt.i32 ∧ rangeOf exLv exBody = some ⟨0, 255⟩ ∧
+    typesExist exLv exBody = true := by decide
+/-- Observable part of a `TryToWrite` outcome: (returned value, destination value afterwards). -/
+def obs (r : Option (Bool × Dest)) : Option (Bool × Int) := r.map fun p => (p.1, p.2.value)
+example : obs (virtualTryToWrite exLv Emboss.CppInt.i32 exBody (fun _ => true) exDest 130) = some (true, 30) ∧
+    obs (virtualTryToWrite exLv Emboss.CppInt.i32 exBody (fun _ => true) exDest 99) = some (false, 5) ∧
+    obs (virtualTryToWrite exLv Emboss.CppInt.i32 exBody (fun _ => true) exDest 356) = some (false, 5) := by
   decide
+
+-- the pinned input of the fixed finding: `let v0 = f0 + 1` over `0 [+4] UInt f0`:
+-- range [1, 2^32], parameter type int64_t, inverse `$logical_value - 1` computed with
+-- IntermediateT = int64_t, ResultT = uint32_t.  Outside the range the C++ expression wraps
+-- (0 ↦ 0xFFFFFFFF) — which is why `CouldWriteValue(0)` was true before the repair; the range
+-- check now refuses 0 before the inverse is computed.
+def exLv32 : Rng := ⟨1, 4294967296⟩
+def exBody1 : Expr := .bin .sub .logical (.const 1)
+def exDest32 : Dest :=
+  { could := fun u => decide (0 ≤ u ∧ u < 4294967296), complete := true, value := 5 }
+example : logicalType exLv32 = some Emboss.CppInt.i64 ∧
+    cppTypes exLv32 exBody1 = [(some Emboss.CppInt.i64, some Emboss.CppInt.u32,
+      some Emboss.CppInt.i64, some Emboss.CppInt.i32)] ∧
+    cppEval exLv32 0 exBody1 = .ok 4294967295 ∧
+    rangeCheck exLv32 Emboss.CppInt.i64 0 = some false ∧
+    obs (virtualTryToWrite exLv32 Emboss.CppInt.i64 exBody1 (fun _ => true) exDest32 0) =
+      some (false, 5) ∧
+    obs (virtualTryToWrite exLv32 Emboss.CppInt.i64 exBody1 (fun _ => true) exDest32 4294967296) =
+      some (true, 4294967295) := by decide
 
 /-- **Alias write**: a virtual field gets an `alias` write method only when it is exactly a
 reference (without `[requires]`) to a writable field of the structure, and a `transform` only
